@@ -24,6 +24,13 @@ var presenceRows = map[string]string{
 	"errors":         "a parse or format error makes the substitution fail",
 }
 
+// typedTok: a configuration value of a basic Go type (answers type switches on that type).
+func typedTok(basic string) *absint.Tok {
+	t := absint.NewTok("value:"+basic, "cfg")
+	t.Attr["basic"] = absint.Str(basic)
+	return t
+}
+
 // quoteCallback: the literal the placeholder processor hands to ReplaceAllContent.
 func quoteCallback(c *core.Ctx, p *procInfo) *ssa.Function {
 	elReplace := c.IfaceMethod("util/el", "Helper", "ReplaceAllContent")
@@ -57,6 +64,12 @@ func presenceTable(c *core.Ctx, p *procInfo, lit *ssa.Function) (rs rows, runs i
 		{"emptyString", func() absint.Value { return absint.Str("") }, false},
 		{"false", func() absint.Value { return absint.Bool(false) }, false},
 		{"zero", func() absint.Value { return absint.Int(0) }, false},
+		// typed scalars: a value of any Go type a configuration source can yield goes through the one formatter
+		{"float64", func() absint.Value { return typedTok("float64") }, false},
+		{"float32", func() absint.Value { return typedTok("float32") }, false},
+		{"int64", func() absint.Value { return typedTok("int64") }, false},
+		{"uint", func() absint.Value { return typedTok("uint") }, false},
+		{"time.Duration", func() absint.Value { return typedTok("int64") }, false},
 	}
 	exps := []struct{ text, key, def string }{{"a.b", "a.b", ""}, {"a.b:dflt", "a.b", "dflt"}, {"a.b:", "a.b", ""}, {"a.b:x:y", "a.b", "x:y"}}
 	for _, v := range vals {
@@ -99,7 +112,13 @@ func presenceTable(c *core.Ctx, p *procInfo, lit *ssa.Function) (rs rows, runs i
 						return types.Identical(T, mapAny), true
 					case *absint.List:
 						return types.Identical(T, sliceAny), true
-					case *absint.Tok, absint.Str, absint.Bool, absint.Int:
+					case *absint.Tok:
+						if tk := x.(*absint.Tok); tk.Attr["basic"] != nil {
+							b, isB := T.Underlying().(*types.Basic)
+							return isB && !types.IsInterface(T) && b.Name() == string(tk.Attr["basic"].(absint.Str)), true
+						}
+						return false, true
+					case absint.Str, absint.Bool, absint.Int:
 						return false, true
 					}
 					return false, false
